@@ -346,9 +346,14 @@ def plan(tier, seed):
             for jobs in ((2, 3) if tier == "quick" else (2, 3, 4, 5)):
                 for closer in ("none", "same", "other"):
                     cfgs.append({"size": size, "min": mn, "jobs": jobs, "closer": closer})
+    if tier == "quick":
+        # grow - retire - grow again needs four jobs: a few such configurations also in the quick tier
+        for size, mn in ((2, 1), (3, 1), (3, 2)):
+            cfgs.append({"size": size, "min": mn, "jobs": 4, "closer": "none"})
     for i, cfg in enumerate(cfgs):
-        shards.append({"kind": "sched", "cfg": cfg, "bound": 1 if tier == "quick" else 2, "nrandom": 40 if tier == "quick" else 1500, "npct": 20 if tier == "quick" else 600,
-                       "max_runs": 250 if tier == "quick" else 12000})
+        deep = tier == "quick" and cfg["jobs"] == 4
+        shards.append({"kind": "sched", "cfg": cfg, "bound": (2 if deep else 1) if tier == "quick" else 2, "nrandom": (400 if deep else 40) if tier == "quick" else 1500,
+                       "npct": (200 if deep else 20) if tier == "quick" else 600, "max_runs": (2500 if deep else 250) if tier == "quick" else 12000})
     for i in range(2 if tier == "quick" else 12):
         shards.append({"kind": "socket", "i": i, "runs": 2 if tier == "quick" else 5})
     return shards
